@@ -109,6 +109,15 @@ def main(tier, seed, args):
     configs.append(('incomplete[%d htlcs, free]' % n, cfg, pc, [TimeoutMonitor(False), Coverage(['timer', 'response:Fail(2019)'])], {}))
     cfg, pc = cfg_partial(1, True)
     configs.append(('incomplete[1 htlc, restart]', cfg, pc, [DeadOldParts(), TimeoutMonitor(True), Coverage(['timer', 'response:Fail(2019)'])], {}))
+    # "not much later": the timer's resolve() needs the payments lock, so the bound holds only while no other payment
+    # keeps that lock across an RPC or a pause -- checked on a payment that goes all the way to pay, and on its error paths
+    from .scen_payflow import flow_cfg
+    from ..monitors import LockDiscipline
+    cfg, pc = flow_cfg(1, 'free_absent', pay_outcomes=('complete', 'failed'))
+    configs.append(('no await under the table lock[1 funded htlc]', cfg, pc, [LockDiscipline(), Coverage(['pay'])], {}))
+    cfg, pc = flow_cfg(1, 'free_absent', pay_outcomes=('complete',), faults=1, fault_methods=('datastore', 'listdatastore'),
+                       fault_codes=((-1, 'Rpc'),))
+    configs.append(('no await under the table lock[1 funded htlc, 1 datastore fault]', cfg, pc, [LockDiscipline(), Coverage(['fault'])], {}))
     scen_common.run_configs(rep, PID, c, configs, budget)
     finish(rep, [c], './check C11 --tier ' + tier)
 
